@@ -410,6 +410,12 @@ func (d *dialA) preNetwork(ruleURL, ruleShape, ruleKey string) {
 			okK, whyK = false, "Sec-WebSocket-Key is not set"
 		} else if vs := sliceOf(ev); len(vs) != 1 || vs[0] != K {
 			okK, whyK = false, "Sec-WebSocket-Key does not carry this call's fresh challenge key"
+		} else if gen != nil {
+			// the key is only usable when the random source delivered it: the error of generateChallengeKey is known nil
+			ge := x.ExtractOf(gen.Result, 1, nil)
+			if !hasLit(p, len(p.Lits), true, func(t *core.Term) bool { return isEqNil(t, is(ge)) }) {
+				okK, whyK = false, "network activity is reached although generateChallengeKey may have failed (its error is not checked): the handshake would go out with an empty key and accept the constant digest of \"\""
+			}
 		}
 		if ev := hdr["Sec-WebSocket-Extensions"]; ev != nil {
 			if !hasLit(p, ev.NLits, true, func(t *core.Term) bool { _, is := fieldLoad(t, ecF); return is }) {
